@@ -552,8 +552,6 @@ val attr_lt : gattr -> gattr -> bool
 
 val value_lt : gvalue -> gvalue -> bool
 
-val vendor_lt : gvendor -> gvendor -> bool
-
 val split_values :
   bytes list -> bytes list -> bytes list -> gvalue list -> (gvalue
   list * gvalue list) res
@@ -606,10 +604,19 @@ val values_of_attr : gattr -> gvalue list -> gvalue list
 
 val funcs : gattr -> gvalue list -> gdecl list
 
-type cvendor = { cv_v : gvendor; cv_attrs : gattr list; cv_vals : gvalue list }
+type cvendor = { cv_name : bytes; cv_ident : bytes; cv_num : z;
+                 cv_attrs : gattr list; cv_vals : gvalue list }
+
+val cvendor_lt : cvendor -> cvendor -> bool
 
 val check_vendors :
   bytes list -> bytes list -> gvendor list -> cvendor list res
+
+val ext_values : gvalue list -> (bytes * bytes) -> gvalue list
+
+val emit :
+  gattr list -> (bytes * bytes) list -> gvalue list -> gvalue list -> cvendor
+  list -> gdecl list
 
 val gen : gopts -> gdict -> gdecl list res
 
